@@ -413,6 +413,52 @@ func CheckC18(tier string) int {
 		}
 	}
 
+	// ---- EIP-1559 grid: trusted headers with every combination of base fee {7, 100, 10^9} wei, gas limit 30M and gas used
+	// {0, 1, target-1, target, target+1, limit}; the child with the base fee go-ethereum's calculator prescribes must be
+	// accepted, the children with that base fee +-1 refused (small base fees reach the one-wei floor of the increase and
+	// the rounding of the decrease)
+	feeGrid := 0
+	{
+		w := base
+		c := w.C(A)
+		ck := c.App.TIBCKeeper.ClientKeeper
+		const limit = 30_000_000
+		for _, bf := range []int64{7, 100, 1_000_000_000} {
+			for _, used := range []uint64{0, 1, limit/2 - 1, limit / 2, limit/2 + 1, limit} {
+				w.Mount(init)
+				g := ethGenesis()
+				g.BaseFee, g.GasUsed = big.NewInt(bf), used
+				ctx := c.ReadCtx(now)
+				gh := toRepoHeader(g)
+				must(ck.CreateClient(ctx, ethName, &ethtypes.ClientState{Header: *gh, ChainId: 1, ContractAddress: make([]byte, 20), TrustingPeriod: 1 << 40},
+					&ethtypes.ConsensusState{Timestamp: g.Time, Number: gh.Height, Root: g.Root[:]}))
+				for _, d := range []int64{0, 1, -1} {
+					h := ethChild(g, 13, "fee", "f")
+					h.BaseFee = new(big.Int).Add(h.BaseFee, big.NewInt(d))
+					if h.BaseFee.Sign() < 0 {
+						continue
+					}
+					cctx, _ := ctx.CacheContext()
+					err := ck.UpdateClient(cctx, ethName, toRepoHeader(h))
+					evals++
+					feeGrid++
+					if err == nil {
+						accepts++
+					} else {
+						rejects++
+					}
+					name := fmt.Sprintf("parent base fee %d gas used %d of %d: child base fee %s (prescribed%+d)", bf, used, limit, h.BaseFee, d)
+					if d == 0 && err != nil {
+						addF([]string{"G(base fee, gas used)", name}, "valid-header-rejected:base-fee-grid", fmt.Sprint(err))
+					}
+					if d != 0 && err == nil {
+						addF([]string{"G(base fee, gas used)", name}, "invalid-header-accepted:base-fee-grid", name)
+					}
+				}
+			}
+		}
+	}
+
 	// ---- hook off: recorded mainnet headers and seal corruptions
 	ethtypes.SealCheck = true
 	sealEvals := 0
